@@ -64,8 +64,17 @@ pub struct Plan {
     /// granularity, or a tool that preserves times). Whatever that earlier launch left behind
     /// (a cache, an index, a stamp) is found by this one. 0 = no such history.
     pub prior_edit: u32,
+    /// Timed waits and sleeps last this many millionths of what the program asked for (0: they
+    /// run out at once; 1 000 000: faithful). The simulated clock advances by the full time asked
+    /// whenever a wait runs out. Exec tier.
+    pub wait_ppm: u32,
+    /// Reads of regular files deliver 1..=read_chunk bytes per call (0: no limit), and the first
+    /// `read_eintr` of them fail with EINTR.
+    pub read_chunk: u32,
+    pub read_eintr: u32,
 }
 
+pub const REF_WAIT_PPM: u32 = 1_000_000;
 pub const REF_RSS_KIB: u64 = 8192;
 pub const REF_CLOCK_BASE: u64 = 1_700_000_000;
 pub const REF_CLOCK_STEP_NS: u64 = 1_000_000;
@@ -90,6 +99,9 @@ impl Plan {
             linger: vec![],
             rss_kib: REF_RSS_KIB,
             prior_edit: 0,
+            wait_ppm: REF_WAIT_PPM,
+            read_chunk: 0,
+            read_eintr: 0,
         }
     }
 
@@ -130,6 +142,9 @@ impl Plan {
             "linger": self.linger,
             "rss_kib": self.rss_kib,
             "prior_edit": self.prior_edit,
+            "wait_ppm": self.wait_ppm,
+            "read_chunk": self.read_chunk,
+            "read_eintr": self.read_eintr,
         })
     }
 
@@ -159,6 +174,9 @@ impl Plan {
             linger: list_u32(v.get("linger")),
             rss_kib: v.get("rss_kib").and_then(Value::as_u64).unwrap_or(REF_RSS_KIB),
             prior_edit: v.get("prior_edit").and_then(Value::as_u64).unwrap_or(0) as u32,
+            wait_ppm: v.get("wait_ppm").and_then(Value::as_u64).unwrap_or(u64::from(REF_WAIT_PPM)) as u32,
+            read_chunk: v.get("read_chunk").and_then(Value::as_u64).unwrap_or(0) as u32,
+            read_eintr: v.get("read_eintr").and_then(Value::as_u64).unwrap_or(0) as u32,
         })
     }
 }
@@ -181,6 +199,9 @@ pub struct CallLog {
     pub pid_reads: u64,
     /// Thread starts the shim actually stalled.
     pub stalls: u64,
+    /// Timed waits / sleeps the seam served, and reads of regular files it cut short or interrupted.
+    pub waits: u64,
+    pub short_reads: u64,
 }
 
 impl CallLog {
@@ -199,6 +220,8 @@ impl CallLog {
         let mut clock_reads = 0;
         let mut pid_reads = 0;
         let mut stalls = 0;
+        let mut waits = 0;
+        let mut short_reads = 0;
         for line in text.lines() {
             if line.starts_with("S ") {
                 skewed = true;
@@ -216,6 +239,14 @@ impl CallLog {
                 stalls += 1;
                 continue;
             }
+            if line == "W" {
+                waits += 1;
+                continue;
+            }
+            if line == "R" {
+                short_reads += 1;
+                continue;
+            }
             let mut it = line.split_whitespace();
             if let (Some(a), Some(b), Some(c)) = (it.next(), it.next(), it.next()) {
                 if let (Ok(a), Ok(b), Ok(c)) = (a.parse(), b.parse(), c.parse()) {
@@ -223,7 +254,7 @@ impl CallLog {
                 }
             }
         }
-        CallLog { calls, skewed, clock_reads, pid_reads, stalls }
+        CallLog { calls, skewed, clock_reads, pid_reads, stalls, waits, short_reads }
     }
 }
 
@@ -242,6 +273,10 @@ struct State {
     pid: u32,
     pid_reads: u64,
     rss_kib: u64,
+    read_chunk: u32,
+    read_eintr: u32,
+    read_state: u64,
+    short_reads: u64,
 }
 
 /// Key used by threads that are not simulated launches (the harness itself).
@@ -263,6 +298,10 @@ thread_local! {
         pid: 0,
         pid_reads: 0,
         rss_kib: 0,
+        read_chunk: 0,
+        read_eintr: 0,
+        read_state: 0,
+        short_reads: 0,
     }) };
 }
 
@@ -302,6 +341,10 @@ pub fn install(plan: &Plan) {
         s.pid = plan.pid;
         s.pid_reads = 0;
         s.rss_kib = plan.rss_kib;
+        s.read_chunk = plan.read_chunk;
+        s.read_eintr = plan.read_eintr;
+        s.read_state = tail_seed(&plan.key) ^ 0x7265_6164;
+        s.short_reads = 0;
     });
 }
 
@@ -315,6 +358,8 @@ pub fn take_log() -> CallLog {
             clock_reads: s.clock_reads,
             pid_reads: s.pid_reads,
             stalls: 0,
+            waits: 0,
+            short_reads: std::mem::take(&mut s.short_reads),
         }
     })
 }
@@ -822,4 +867,58 @@ pub extern "C" fn sched_getcpu() -> c_int {
             cpu as c_int
         }
     }
+}
+
+const SYS_READ: std::ffi::c_long = 0;
+const SYS_FSTAT: std::ffi::c_long = 5;
+
+/// Short-read seam, in-process side: a launch thread's reads of regular files deliver
+/// 1..=read_chunk bytes per call and the first `read_eintr` of them are interrupted, exactly as
+/// in the exec tier's shim. Every other read of every thread goes to the kernel unchanged.
+///
+/// # Safety
+/// `buf` must be valid for `count` bytes, as for the libc function it replaces.
+#[cfg(all(target_os = "linux", target_arch = "x86_64"))]
+#[unsafe(no_mangle)]
+pub unsafe extern "C" fn read(fd: c_int, buf: *mut c_void, count: usize) -> isize {
+    let mut count = count;
+    let limit = STATE
+        .try_with(|s| s.try_borrow().ok().filter(|s| s.installed && s.read_chunk > 0 && s.short_reads < 2000).map(|s| s.read_chunk))
+        .unwrap_or(None);
+    if let (Some(_), true) = (limit, count > 0) {
+        let mut st = [0u64; 18]; // struct stat is 144 bytes; st_mode is the u32 at offset 24
+        // SAFETY: plain system call on a local buffer of the right size.
+        let regular = unsafe { syscall(SYS_FSTAT, fd as std::ffi::c_long, st.as_mut_ptr()) } == 0
+            && ((st[3] & 0xffff_ffff) as u32 & 0o170_000) == 0o100_000;
+        if regular {
+            let decision = STATE
+                .try_with(|s| {
+                    let Ok(mut s) = s.try_borrow_mut() else { return None };
+                    if s.read_eintr > 0 {
+                        s.read_eintr -= 1;
+                        s.short_reads += 1;
+                        return Some(Err(()));
+                    }
+                    let mut t = s.read_state;
+                    let want = 1 + (splitmix(&mut t) % u64::from(s.read_chunk)) as usize;
+                    s.read_state = t;
+                    if want < count {
+                        s.short_reads += 1;
+                    }
+                    Some(Ok(want))
+                })
+                .unwrap_or(None);
+            match decision {
+                Some(Err(())) => {
+                    // SAFETY: glibc's errno location is valid for the current thread.
+                    unsafe { *__errno_location() = EINTR };
+                    return -1;
+                }
+                Some(Ok(want)) => count = count.min(want),
+                None => {}
+            }
+        }
+    }
+    // SAFETY: plain system call with the caller's arguments.
+    unsafe { syscall(SYS_READ, fd as std::ffi::c_long, buf, count) as isize }
 }
